@@ -115,6 +115,7 @@ func c06(e *Env) {
 			obOther.Fail(e.where(u.in), fmt.Sprintf("%s of the slot channel in %s", u.kind, core.FuncName(u.fn)))
 		}
 	}
+	e.positiveControls("chan-close")
 	obS := r.Ob("R1", "slot:send-sites", "sends on the slot channel occur in exactly one function (acquire)")
 	obR := r.Ob("R1", "slot:recv-sites", "receives on the slot channel occur in exactly one function (release)")
 	obS.Check(len(sendFns) == 1, "-", "acquire = "+fnNames(sendFns), "send sites in: "+fnNames(sendFns))
